@@ -403,7 +403,9 @@ def reroute_strategy():
     })
     return st.tuples(target, st.sampled_from(['endpoint', 'raise-endpoint', 'raise-middleware', 'raise-render']),
                      st.sampled_from(['GET', 'POST', 'PUT']), st.sampled_from(['', 'a=1&b=2']),
-                     st.lists(st.sampled_from(['plain', 'provides']), max_size=2), st.sampled_from(['/go', '/go/deep/er']),
+                     # middlewares of the rerouting route: pass-through, providing, the built-in stats middleware, and a user middleware of
+                     # the same try / except Exception / finally shape (a reroute passes through them like any exception would)
+                     st.lists(st.sampled_from(['plain', 'provides', 'stats', 'guard']), max_size=2), st.sampled_from(['/go', '/go/deep/er']),
                      # application-level WSGI wrappers around the rerouting application: handing on a copy of the environ with an
                      # entry of their own, decorating start_response, calling the inner application lazily, or passing through
                      st.lists(st.sampled_from(['copy', 'header', 'lazy', 'pass']), max_size=3, unique=True),
@@ -462,7 +464,26 @@ def reroute_body(case, ctx):
     class Raiser(Middleware):
         def request(self, next):
             raise rr
-    mws = [Plain() if k == 'plain' else Prov() for k in dict.fromkeys(mwkinds)]
+    class Guard(Middleware):
+        seen = []
+
+        def request(self, next):
+            try:
+                ret = next()
+                outcome = 'returned'
+            except Exception:
+                outcome = 'raised'
+                raise
+            finally:
+                Guard.seen.append(outcome)
+            return ret
+
+    def make_mw(k):
+        if k == 'stats':
+            from clastic.middleware.stats import StatsMiddleware
+            return StatsMiddleware()
+        return {'plain': Plain, 'provides': Prov, 'guard': Guard}[k]()
+    mws = [make_mw(k) for k in dict.fromkeys(mwkinds)]
 
     def ep_raise():
         raise rr
